@@ -606,6 +606,9 @@ func (RawBytesType) Kind() SchemaKind {
 }
 
 func (RawBytesType) RenderUnmarshalJSON(to, from string, isNew bool, mkErr ErrorRender) (string, error) {
+	if isNew {
+		return to + " := " + from, nil
+	}
 	return to + " = " + from, nil
 }
 func (RawBytesType) RenderMarshalJSON(to, from string, isNew bool, mkErr ErrorRender) (string, error) {
